@@ -495,6 +495,9 @@ func Copy(c *Ctx) error {
 						// destination entry, the next match must not be written through it
 						add(model.Tree{at(l, "l"), mk("m"), dirE("n"), mk("n/x")}, nil, "*", "sub", false, true, "srcWildcardIntoFreshDst")
 						add(model.Tree{at(l, "l"), mk("m"), dirE("n"), mk("n/x")}, nil, "*", "sub", true, true, "srcWildcardIntoFreshDst/contents")
+						// ... and with a directory as the very next match
+						add(model.Tree{at(l, "l"), dirE("n"), mk("n/x")}, nil, "*", "sub", false, true, "srcWildcardIntoFreshDst/dirNext")
+						add(model.Tree{at(l, "l"), dirE("n"), mk("n/x")}, nil, "*", "deep/sub", false, true, "srcWildcardIntoFreshDst/dirNext/deep")
 						// symlink in the destination tree at the position of a source entry
 						add(model.Tree{mk("f"), dirE("d"), mk("d/x")}, model.Tree{at(l, "f"), at(l, "d")}, "/", "/", true, false, "dstTreeCollides")
 						add(model.Tree{dirE("d"), mk("d/x"), mk("d/new")}, model.Tree{at(l, "d")}, "d", "/", false, false, "dstDirIsLink")
@@ -510,9 +513,14 @@ func Copy(c *Ctx) error {
 						{
 							cc := def
 							cc.Kind, cc.Src, cc.Dst, cc.SrcArg, cc.DstArg, cc.Contents, cc.Follow, cc.Replace = "contain",
-								model.Tree{dirE("sub"), mk("sub/keep.txt"), mk("sub/other"), dirE("sub/deep"), mk("sub/deep/keep.txt")}, model.Tree{at(l, "sub")}, "/", "/", true, follow, rep
+								model.Tree{dirE("sub"), mk("sub/keep.txt"), mk("sub/other"), dirE("sub/deep"), mk("sub/deep/keep.txt"), mk("sub/x")}, model.Tree{at(l, "sub")}, "/", "/", true, follow, rep
+							// (sub/x: the outside directory holds an entry of that name)
 							cc.Inc = []string{[]string{"sub/keep.txt", "sub/deep/keep.txt", "**/keep.txt"}[li%3]}
 							cc.Origin = fmt.Sprintf("onDemandParentIsLink/link%d", li)
+							cases = append(cases, cc)
+							// (the outside directory holds an entry named x)
+							cc.Inc = []string{"sub/x"}
+							cc.Origin = fmt.Sprintf("onDemandParentIsLink/sameNameOutside/link%d", li)
 							cases = append(cases, cc)
 							cc.Inc, cc.Exc = nil, []string{"sub/other"}
 							cc.Origin = fmt.Sprintf("excludeWithLinkedParent/link%d", li)
